@@ -186,7 +186,10 @@ theorem stitchDown_spec (s : Store) (b : Nat) (last : Option Str) :
       split
       · exact ROSpec.ret hx
       · exact ROSpec.bind (ih _) (fun more hm => ROSpec.ret (hx.append hm))
-    · exact ih _
+    · refine ROSpec.bind (ROSpec.of_ro (unwrapOr_ro _ (isFile_ro _))) (fun r _ => ?_)
+      split
+      · exact ROSpec.emit (ih _)
+      · exact ih _
 
 theorem stitchAll_spec (s : Store) (b : Nat) : ROSpec s (stitchAll b) (FromHunks s) := by
   unfold stitchAll
